@@ -11,8 +11,15 @@ for d in sorted(os.listdir(os.path.join(HERE, "seeded"))):
     caught = "; ".join(f"**{k}**: {v}" for k, v in m.get("caught_by", {}).items()) or "-"
     missed = "; ".join(m.get("missed_by", [])) or "-"
     rows.append(f"| `{d}` | {m['summary']} | {m['needs']} | {caught} | {missed} |")
+own = 0
+for d in sorted(os.listdir(os.path.join(HERE, "seeded"))):
+    f = os.path.join(HERE, "seeded", d, "meta.json")
+    if os.path.exists(f):
+        m = json.load(open(f))
+        own += any(k.startswith(m["property"] + " ") for k in m.get("caught_by", {}))
 table = ("### 5.1 Seeded changes and the checks that catch them\n\n"
-         f"{len(rows)} changes; every one is caught by the quick tier of the check of its own property.  "
+         f"{len(rows)} changes, all caught by the quick tier: {own} by the check of the property they were filed under, "
+         f"{len(rows) - own} only by the check of a neighbouring property (named in the table).  Changes that no check catches are not stored; they are listed in the text above.  "
          "\"missed by\" records checks (or earlier versions of a check) that ran on the change and stayed silent.\n\n"
          "| seeded change | what was changed | needs, to manifest | caught by (signature) | missed by |\n|---|---|---|---|---|\n"
          + "\n".join(rows) + "\n")
